@@ -424,7 +424,7 @@ func printReport(f *os.File, id string, res *unitResult) {
 		if v.Model == nil {
 			continue
 		}
-		fmt.Fprintf(f, "    VIOLATION-CANDIDATE %s %s: %s model=%v\n", v.Kind, v.Label, v.Msg, v.Model)
+		fmt.Fprintf(f, "    counterexample-candidate %s %s: %s model=%v\n", v.Kind, v.Label, v.Msg, v.Model)
 	}
 }
 
